@@ -283,8 +283,10 @@ def extract(unit, ex):
         frag = R.r1_await(frag, st)
         for a, b in cfg.get("pre_subst", []):
             frag = R.r8_subst(frag, st, [(a, b)], "R8p")
+        if cfg.get("result_unfold"):
+            frag = R.r10_result_unfold(frag, st)
         if cfg.get("question"):
-            frag = R.r11_question(frag, st)
+            frag = R.r11_question(frag, st, cfg.get("question_from", "vx_from"))
         if cfg.get("option_unfold"):
             frag = R.r10_option_unfold(frag, st)
         if cfg.get("drop_nested_fns"):
